@@ -45,6 +45,20 @@ pub fn debug_cmd(args: &[String]) {
             rec(&db, root, 0);
             println!("{}", diags.format(&db));
         }
+        Some("diag") => {
+            // dbg diag <file> [2023_01]
+            let src = std::fs::read_to_string(&args[1]).unwrap();
+            let settings = if args.get(2).map(|s| s.as_str()) == Some("2023_01") { crate::core::cairo::SETTINGS_2023_01 } else { crate::core::cairo::SETTINGS_2024_07 };
+            let db = crate::core::exec::FrontCfg::default_cfg().new_db(crate::core::cairo::Plugins::Default);
+            let input = crate::core::cairo::virtual_crate_input("test", &src, settings, None);
+            let (d, e) = crate::core::cairo::diagnostics_string(&db, &input);
+            println!("diagnostics found={e}:\n{d}");
+            match c08::front(&db, "test", &src, settings) {
+                Ok(c08::Front::Rejected(_)) => println!("front: rejected"),
+                Ok(c08::Front::Program(p)) => println!("front: program with {} statements; back: {:?}", p.statements.len(), c08::back(&p)),
+                Err(e) => println!("front: VIOLATION {e:?}"),
+            }
+        }
         Some("c14felts") => {
             c14::debug_felts();
         }
